@@ -119,6 +119,19 @@ def main():
                 U.union(B, mapping, check_shared_equality=True, record_provenance=False)
             except tskit.LibraryError as e:
                 continue
+            # a shared node whose metadata differs between the parts: union must refuse (check_shared_equality)
+            sh_idx = [i_ for i_, m_ in enumerate(mapping) if m_ != -1]
+            if sh_idx:
+                B2 = B.copy()
+                q = run.rng.choice(sh_idx)
+                B2.nodes[q] = B2.nodes[q].replace(metadata=b"DIFFERENT")
+                U2 = A.copy()
+                try:
+                    U2.union(B2, mapping, check_shared_equality=True, record_provenance=False)
+                    run.violation("union refuses shared portions that differ (here: metadata of a shared node)",
+                                  dict(desc, a=a_nodes, b=b_nodes, mapping=mapping, changed=q), "accepted", "LibraryError")
+                except tskit.LibraryError:
+                    pass
             got = content(U)
             full = content(t)
             # what the two parts contain together
